@@ -140,7 +140,7 @@ Available == IsRead => LET u == resp.u  v == resp.v IN
    /\ (resp.surf = "GetAttachment" /\ resp.rev \in {"", cur} /\ CurLive(u) /\ CurIsLast) => (resp.st = "ok" /\ (~v.meta => cur \in resp.am))
    /\ (resp.surf = "BlipChanges" /\ CurLive(u)) => resp.listed
    /\ (resp.surf = "BlipRev" /\ CurLive(u)) => cur \in resp.mk
-   /\ (resp.surf = "BlipGetAttachment" /\ resp.rev = cur /\ v.during /\ CurLive(u) /\ CurIsLast) => cur \in resp.am
+   /\ (resp.surf = "BlipGetAttachment" /\ resp.rev = cur /\ v.during /\ v.single /\ CurLive(u) /\ CurIsLast) => cur \in resp.am
    /\ (resp.surf = "BlipGetRev" /\ CurLive(u)) => cur \in resp.mk
 
 -----------------------------------------------------------------------------
@@ -242,7 +242,7 @@ Conforms(rd, r) ==
   /\ r.mk \subseteq i.mk \cup bk \cup (IF rd.surf = "Changes" THEN Readable(rd.u) ELSE {})   \* a rebuilt feed may list an older revision too (C01's business)
   /\ r.am \subseteq i.am \cup DocLevelAtt(rd.u) \cup bk
   /\ Bodies(r.ents) \subseteq Bodies(i.ents) \cup bk \cup (IF rd.surf = "Changes" THEN Readable(rd.u) ELSE {})
-  /\ (~w /\ ~Del(cur)) => ((cur \in i.mk => cur \in r.mk) /\ ((cur \in i.am /\ CurIsLast /\ (rd.surf = "BlipGetAttachment" => rd.v.during)) => cur \in r.am))
+  /\ (~w /\ ~Del(cur)) => ((cur \in i.mk => cur \in r.mk) /\ ((cur \in i.am /\ CurIsLast /\ (rd.surf = "BlipGetAttachment" => (rd.v.during /\ rd.v.single))) => cur \in r.am))
   /\ IF w THEN r.listed => i.listed ELSE r.listed = i.listed
   /\ (~w /\ rd.surf \in {"GetDoc", "GetAttachment"} /\ rd.rev = "" /\ (rd.surf = "GetAttachment" => CurIsLast)) => r.st = i.st
 
@@ -268,7 +268,7 @@ Changes(u, v)            == Read(Rd("Changes", u, "", v))
 GetAttachment(u, rev, m) == Read(Rd("GetAttachment", u, rev, [meta |-> m]))
 BlipChanges(u, removals) == Blip /\ Read(Rd("BlipChanges", u, "", [removals |-> removals]))
 BlipRev(u, delta, removals) == Blip /\ Read(Rd("BlipRev", u, "", [delta |-> delta, removals |-> removals]))
-BlipGetAttachment(u, rev, during) == Blip /\ Read(Rd("BlipGetAttachment", u, rev, [during |-> during]))
+BlipGetAttachment(u, rev, during) == Blip /\ Read(Rd("BlipGetAttachment", u, rev, [during |-> during, single |-> TRUE]))
 BlipGetRev(u)            == Blip /\ Read(Rd("BlipGetRev", u, "", [x |-> 0]))
 
 Init == cfg \in Cases /\ cur = WinnerIn(cfg.revs) /\ resp = None /\ hist = <<>>
